@@ -12,6 +12,8 @@ for d in sorted(glob.glob(os.path.join(os.path.dirname(os.path.dirname(os.path.a
     how = "replay" if (line and "no-failing-input-found" not in line[0] and m.get("caught")) else ("no-failing-input-found" if m.get("caught") else "MISSED")
     if m.get("superseded_by_fix") and not m.get("caught"):
         how = "harmless after fix %s" % m["superseded_by_fix"]
+    if m.get("outside_quantifier") and not m.get("caught"):
+        how = "outside the quantifier: " + m["outside_quantifier"][:120]
     what = (line[1] if len(line) > 1 else "").replace("  what: ", "").replace("|", "/")[:110]
     rows.append("| %s | %s | %s | %s | %s |" % (os.path.basename(d), (am.get("summary") or "")[:110].replace("|", "/"),
                                              (am.get("needs") or "")[:90].replace("|", "/"), how, what))
